@@ -62,8 +62,8 @@ def directed():
 
 
 def run(ctx, case):
-    spec = case["spec"]
     df, info, _ = _rows.solve_and_judge(ctx, case, ACCEPT)
+    spec = case["spec"]  # the effective spec (a build history may have reset phase configurations)
     if df is None:
         return
     kinds = _rows.observe(ctx, spec)
